@@ -351,7 +351,7 @@ def c01(tier, replay=None):
 
 
 # ------------------------------------------------------------------------------------------------ C12
-DEFECTS = ["missing_value", "missing_value_loop", "missing_value_table", "dup_scalar", "dup_scalar_case", "dup_loop_stored", "dup_loop_header", "dup_loop_only", "dup_loop_twice",
+DEFECTS = ["missing_value", "missing_value_loop", "missing_value_table", "dup_scalar", "dup_scalar_case", "dup_loop_stored", "dup_loop_header", "dup_loop_header_case", "dup_loop_only", "dup_loop_twice",
            "dup_block", "dup_frame", "partial_packet", "null_loop", "null_loop_loop", "empty_loop", "missing_endquote", "missing_endquote_dq",
            "unclosed_text", "unclosed_triple", "missing_space_qq", "missing_space_qname", "missing_space_list", "stray_cbracket", "stray_cbrace",
            "missing_cbracket", "missing_cbrace", "missing_key", "missing_key_bare", "null_key", "unquoted_key", "unquoted_key_sp", "unquoted_key_eol", "unquoted_key_q", "null_key_sp", "missing_key_only", "text_key", "reserved_data",
@@ -876,7 +876,8 @@ def c03(tier, replay=None):
     seeds = ["", "﻿", "data_", "data_a loop_", "loop_ _a _a 1 2", "data_a\nloop_ _ 1", "data_a _x [", "data_a _x {'k':", "data_a _x {'k'", "data_a\n;", "data_a _x '''", "save_", "data_a save_f save_g",
              "#\\#CIF_2.0\ndata_a\n_x \ud800", "data_a _x \udc00y", "#\\#CIF_1.1\ndata_a _x [a]", "data_a _x 'a'b", "data_a _x\n;\\\n\\\n;", "data_a _x\n;> \\\n;", "data_a\n_x\n;>\\\\\n>a\\\n>\n;\n",
              "data_" + "c" * 2050, "data_a _" + "n" * 3000 + " 1", "data_a _x " + "v" * 70000, "data_a _x '" + "q" * 70000 + "'", "data_a\n_x\n;" + ("t" * 2000 + "\n") * 80 + ";\n", "data_a " + "_n 1 " * 3,
-             "data_a loop_ " + " ".join("_i%d" % i for i in range(300)) + " " + "1 " * 600, "data_a _x " + "[" * 3000, "data_a _x " + "{'k':" * 500, "\x00", "\xff", "data_a _x \x7f"]
+             "data_a loop_ " + " ".join("_i%d" % i for i in range(300)) + " " + "1 " * 600, "data_a _x " + "[" * 3000, "data_a _x " + "{'k':" * 500, "\x00", "\xff", "data_a _x \x7f",
+             "\x01data_a _x 1", "\x0cdata_a _x 1", "\x7fdata_a", "\u00e9data_a _x 1", "\u20acdata_a", "\U0001d11edata_a _x 1"]
     inputs = []
     for i, t in enumerate(bases):
         b = t.encode("utf-8")
